@@ -1375,6 +1375,13 @@ class Kconfig(object):
                 for choice in self.unique_choices:
                     choice._was_set = False
 
+                if is_main_sdkconfig:
+                    # The main sdkconfig is replaced: forget what the previously loaded file said, so that a symbol
+                    # which is absent from this file does not keep a stale baseline (see MenuConfigState.needs_save()).
+                    for sym in self.unique_defined_syms:
+                        sym._sdkconfig_value = None
+                        sym._loaded_as_default = False
+
             for sym in self.unique_defined_syms:
                 sym.present_in_current_sdkconfig = False
 
